@@ -51,6 +51,13 @@ void harness(void) {
 	int r2 = bn_div(&a2, &b2, &rem2);
 	const val_t q2 = bn_value(&a2), rm2 = bn_value(&rem2);
 #endif
+#ifdef NORM_OVF	/* only inputs whose normalisation would shift bits out of the dividend's capacity (dividend fills all its digits,
+		 * divisor's top digit has more leading zeros): the call must fail loudly, never "succeed" */
+#if !(DA == CA && DB > 0)
+#error "NORM_OVF needs a dividend at full capacity"
+#endif
+	V_ASSUME(vn > vd && bn_digit_clz(IN.b.num[DB - 1]) > bn_digit_clz(IN.a.num[DA - 1]));
+#endif
 #ifdef USE_BN_MOD
 	int r = bn_mod(&a, dp, NULL);
 #else
@@ -79,9 +86,15 @@ void harness(void) {
 		V_ASSERT(norm, "bn_div: EOVERFLOW only when the normalised dividend does not fit its capacity");
 #endif
 #endif
+#ifdef NORM_OVF
+		V_WITNESS_MUST("div: normalisation overflow reported as EOVERFLOW");
+#endif
 		V_WITNESS("div: overflow error");
 		return;
 	}
+#ifdef NORM_OVF
+	V_ASSERT(0, "bn_div: dividend at full capacity whose normalisation loses bits must not report success");
+#endif
 #if defined(REM_IS_BN) || defined(USE_BN_MOD)
 	/* bn receives the remainder */
 	val_t vr = bn_value(&a);
